@@ -498,6 +498,8 @@ def m_minmax(eng, st, callee, a, ty):
 @model(r"^<Cow<'_, .*> as Deref>::deref$")
 def m_cow_deref(eng, st, callee, a, ty):
     cow = eng.deref(a[0])
+    if isinstance(cow, Opaque):
+        return one(a[0])            # abstract vector / bitmap handle standing for the Cow itself
     inner = cow.f[0]
     if isinstance(inner, Ref):
         return one(inner)
